@@ -14,7 +14,7 @@
    open part after any event: TLC thereby enumerates every segmentation.
    Invariant: Merge over every segmentation = Direct over the union, every
    occurring group key appears in exactly one row, rows partition the events,
-   Merge is commutative; Bucket partitions the time line.
+   Merge is commutative; Bucket (any align time) partitions the time line.
 
    event  [id, ts, x, g]
      x : measure value  [k \in {"int","flt","numstr","text","absent"}, n, c]
@@ -107,8 +107,16 @@ RECURSIVE TMergeAll(_)
 TMergeAll(ts) == IF ts = <<>> THEN <<>> ELSE TMerge(Head(ts), TMergeAll(Tail(ts)))
 Keys(t) == {t[j].key : j \in DOMAIN t}
 
-(* ---------------- time buckets ---------------- *)
-Bucket(ts, span, origin) == origin + ((ts - origin) \div span) * span          \* requires origin <= ts
+(* ---------------- time buckets ----------------
+   Bucket(ts, span, align) = align + floor((ts - align) / span) * span, for ts on BOTH sides of the align time:
+   timechart aligns to the start of the query range (align <= every ts), `bin span=` to the epoch (align = 0), and
+   `bin span= aligntime=t` (bincommand.getTimeBucketWithAlign) to any t - inside, before or after the data -
+   where the quotient is negative for the events older than t.  FloorDiv is written out (not `\div`) so that the
+   rounding direction is explicit; "align-truncates" is the variant that rounds the quotient towards zero, as Go's
+   integer division does. *)
+FloorDiv(d, s) == IF d >= 0 THEN d \div s ELSE -(((-d) + s - 1) \div s)
+TruncDiv(d, s) == IF d >= 0 THEN d \div s ELSE -((-d) \div s)
+Bucket(ts, span, align) == align + (IF Defect = "align-truncates" THEN TruncDiv(ts - align, span) ELSE FloorDiv(ts - align, span)) * span
 BucketTable(E, span, origin) == [b \in {Bucket(e.ts, span, origin) : e \in E} |-> Direct({e \in E : Bucket(e.ts, span, origin) = b})]
 
 -----------------------------------------------------------------------------
@@ -157,8 +165,9 @@ InvRowsPartition == LET all == MergeAll([j \in DOMAIN MergedT |-> MergedT[j].p])
                     IN all.cnt = Cardinality(Seen) /\ all.sum = SumN(Seen) /\ all.vals = DVals(Seen)
 (* time buckets partition the range: every event in exactly one bucket whose span contains its timestamp *)
 CONSTANTS Spans, Origins
-InvBuckets == \A span \in Spans, o \in Origins :
-   (\A e \in Seen : o <= e.ts) =>
+InvFloorDiv == \A span \in Spans, o \in Origins : \A e \in Seen :
+   LET q == FloorDiv(e.ts - o, span) IN q * span <= e.ts - o /\ e.ts - o < (q + 1) * span
+InvBuckets == \A span \in Spans, o \in Origins :       \* Origins lie before, inside and after the data
      LET T == BucketTable(Seen, span, o)
      IN /\ \A e \in Seen : LET b == Bucket(e.ts, span, o) IN b <= e.ts /\ e.ts < b + span /\ (b - o) % span = 0
         /\ \A e \in Seen : Cardinality({b \in DOMAIN T : b <= e.ts /\ e.ts < b + span}) = 1
